@@ -877,6 +877,75 @@ def check_defect_predicates(chk, F, rid="R12.14"):
     chk.floor(rid, "scripts", n, 20)
 
 
+# ---- R12.16 Tr::new: the programmatic constructor of taproot descriptors ----------------------------------------------------
+
+def check_tr_new(chk, F, rid="R12.16"):
+    from ..interp import Machine, Adt, Term, PyVec, Panic, ok, err, some, NONE
+    from ..builtins import deref
+    chk.rule(rid, "Tr::new (behind Descriptor::new_tr, the taproot compilers and Tr::translate_pk) accepts a tree only if the "
+                  "internal key passes the Tapscript key rule and *every* leaf passes the context's top-level checks (a complete "
+                  "B script of the Tapscript context, as the parser requires of each leaf): decision table over trees of 0..3 "
+                  "leaves with the failing leaf in every position")
+    try:
+        trnew = [q for q in F.fns if q.endswith("descriptor::tr::Tr::<Pk>::new")][0]
+    except IndexError:
+        chk.fail(rid, "anchor", "Tr::new not found", kind="unanalysable")
+        return
+    chk.saw(trnew)
+    TT = "descriptor::tr::taptree::TapTree"
+    bad = set()
+    seen = []
+
+    def tlc(m_, a, c):
+        v = deref(a[0])
+        name = v.fields.get("name") if isinstance(v, Adt) else v
+        seen.append(name)
+        return err(Term("top-level", name)) if name in bad else ok(())
+    hooks = {}
+    for q in F.fns:
+        if q.endswith("ScriptContext::top_level_checks") or q.endswith("::top_level_checks"):
+            hooks[q] = tlc
+    hooks["miniscript::context::ScriptContext::top_level_checks"] = tlc
+    keybad = [False]
+
+    def cpk(m_, a, c):
+        return err(Term("key-rule")) if keybad[0] else ok(())
+    for q in F.fns:
+        if q.endswith("::check_pk"):
+            hooks[q] = cpk
+    hooks["std::sync::Mutex::<T>::new"] = lambda m_, a, c: Term("mutex")
+
+    def leaf(name):
+        return Adt(model.MS, "Miniscript", {"node": Term("node", name), "ty": Term("ty"), "ext": Term("ext"), "phantom": (), "name": name})
+    n = 0
+    shapes = {0: None, 1: [(0, "l0")], 2: [(1, "l0"), (1, "l1")], 3: [(1, "l0"), (2, "l1"), (2, "l2")]}
+    for nl, shape in shapes.items():
+        names = [x[1] for x in (shape or [])]
+        for failing in [None] + names:
+            for kb in (False, True):
+                bad.clear()
+                if failing:
+                    bad.add(failing)
+                keybad[0] = kb
+                del seen[:]
+                tree = NONE if shape is None else some(Adt(TT, "TapTree", {"depths_leaves": PyVec([(d, leaf(nm)) for d, nm in shape])}))
+                key = "%d-leaves|%s|key-%s" % (nl, "fails:" + failing if failing else "all-pass", "bad" if kb else "ok")
+                m = Machine(F, strict=True, hooks=hooks)
+                try:
+                    r = m.call_callee({"def": trnew, "resolved": trnew, "name": "new", "targs": ["PK"]}, ["K", tree])
+                    n += 1
+                    want_ok = not failing and not kb
+                    chk.obligation(rid, (r.variant == "Ok") == want_ok, key,
+                                   "Tr::new with %d leaves (%s, internal key %s) answers %s; leaves checked: %r"
+                                   % (nl, "leaf %s fails the top-level checks" % failing if failing else "all leaves pass",
+                                      "refused" if kb else "fine", r.variant, seen), F.fns[trnew]["span"])
+                except Unsupported as e:
+                    chk.fail(rid, "unanalysable:" + key, "unanalysable: %s" % e, where=e.where, kind="unanalysable")
+                except Panic as e:
+                    chk.fail(rid, key, "panic: %s" % e, F.fns[trnew]["span"])
+    chk.floor(rid, "cases", n, 20)
+
+
 def run(chk):
     F = chk.facts()
     chk.explanation = (
@@ -925,3 +994,4 @@ def run(chk):
     chk.guard("R12.13", "tree-shape", c20.check_tree_shape, al2, F)
     from . import limits as _limits
     chk.guard("R12.11", "timelock-composition", _limits.check_timelock_composition, chk, F, "R12.11")
+    chk.guard("R12.16", "tr-new", check_tr_new, chk, F)
